@@ -152,7 +152,10 @@ CHECKS = {
          "(denote_wf, topoB_sound, singleWriterB_sound) carry this to the executable RTL model, giving any_order / rerun_noop / dataflow_unique / tick_indep "
          "for every design, order, ff permutation and state. Tie to the code: random designs run under all five pass groups plus forced linear extensions "
          "and ff permutations; every signal after every eval_comb and tick is compared with the model, each real schedule is checked by the model's topoB, "
-         "and three direct oracles (schedules agree, re-run is a no-op, values equal an independent dataflow evaluation) run on the real simulator.",
+         "and three direct oracles (schedules agree, re-run is a no-op, values equal an independent dataflow evaluation) run on the real simulator. A second "
+         "stream ties the same model to LIBRARY code: harness/common/pymtl2rtl.py derives the Model/Rtl form of real components (stdlib arbiters, crossbars, encoders, muxes, "
+         "registers, register files, three queue families, ROMs, the example checksum units and the whole example ProcRTL: 75+ designs) by symbolic execution of their update "
+         "blocks on every run, and Lean simulation, PyMTL simulation under several pass groups / forced orders and an independent evaluation must agree on every signal.",
          "Trusted: Lean kernel + standard axioms; Model/Rtl.lean (bit-vector signals, assignment-list blocks, nets as blocks, if/else presented as mux by the "
          "harness generator); driver table glue; generator language = Bits signals, constant slices, one level of children, nets. Scheduling passes are not "
          "modelled as algorithms; their outputs are checked and executed.",
@@ -171,7 +174,11 @@ CHECKS = {
  'C07': ("Lean 4 theorems over the double-buffer model: the shadow buffer after the ff phase is the same for every permutation of the update_ff blocks (ff_perm, "
          "tick_ff_perm, via pairwise commutation), the ff phase leaves all current values untouched (ff_reads_pre_edge), an unassigned register holds, the last "
          "executed assignment wins (last_wins), the flip changes exactly the register bits together (edge) and shadow = value at every cycle boundary "
-         "(next_eq_cur). Tie to the code: register-heavy designs under five pass groups and forced permutations of schedule_ff with probes between the ff blocks.",
+         "(next_eq_cur). Props/C07f.lean models the grouping loop of SimpleSchedulePass.schedule_posedge_flip (single registers hoisted to the parent component) and proves that "
+         "the generated flip function covers every double-buffered signal exactly once (grouping_perm, mem_grouping, grouping_nodup), addresses each relative to a component it "
+         "lives under (grouping_prefix) and that the loop terminates independently of the fuel (grouping_settled, grouping_fuel). Tie to the code: register-heavy designs under "
+         "five pass groups and forced permutations of schedule_ff with probes between the ff blocks; the generated double_buffer source of these designs and of random component "
+         "trees (depth 0-4) parsed and compared with the model grouping, plus a direct oracle (flipped set = needs_double_buffer set = signals written by update_ff).",
          "Trusted: as C01; registers are Bits-typed in the generator (struct registers are bit ranges of one signal in the model).",
          "Lean 4 proof + differential correspondence check", "DESIGN.md §5 C07"),
  'C11': ("Lean 4 theorems about the SCC super-block model: a returned state is a fixed point of every block of the group when the watch list covers the "
